@@ -182,6 +182,30 @@ def run(ctx):
                        loc=i.loc, msg='fragments of one stripe are allocated with different sizes')
     ctx.assume('clang-14 and the repo\'s configured flags define the ABI of the packed header (x86-64, little endian)')
     from . import c01, c08, c15
+    r = ctx.rule('R07d', 'instance_create keeps the caller\'s arguments as given: the argument block is copied whole and no member of it is stored to',
+                 'ct is written into every header (offset 20) exactly as the caller passed it: a "normalised" value changes the bytes of every fragment of that configuration')
+    cf = P.fn('liberasurecode_instance_create')
+    ncp = 0
+    for i in cf.insts():
+        if i.op == 'call' and (i.callee or '').startswith('@llvm.memcpy'):
+            ncp += 1
+        if i.op != 'store':
+            continue
+        fl = fields_in_path(access_path(P, cf, i.ops[1])[1])
+        hit = [x for x in fl if x[0] == 'ec_args']
+        vd = cf.defs.get(strip_int_casts(cf, i.ops[0])) if hit else None
+        if hit and vd is not None and vd.op == 'load' and [x for x in fields_in_path(access_path(P, cf, vd.ops[0])[1]) if x[0] == 'ec_args'][-1:] == hit[-1:]:
+            ncp += 2           # a member-by-member copy: the member receives the same member of the caller's block
+            r.ok(f'instance_create: args.{hit[-1][1]} copied member to member at line {i.line}', func=cf.name, loc=i.loc)
+        elif hit:
+            r.fail(f'instance_create: store into args.{hit[-1][1]} at line {i.line}', func=cf.name, sig=f'create stores into ec_args.{hit[-1][1]}', loc=i.loc,
+                   msg=f'liberasurecode_instance_create overwrites the member {hit[-1][1]} of the argument block it was given: the instance (and with it every header '
+                       'it writes) no longer carries the value the caller configured')
+    if ncp >= 2:
+        r.ok(f'instance_create: the argument block reaches the instance through {ncp} whole-struct copies, no member store', func=cf.name, loc=cf.mod.src)
+    else:
+        r.undecided('instance_create: copies of the argument block', loc=cf.mod.src, msg=f'only {ncp} whole-struct copies found')
+    r.require_min(1)
     r = ctx.rule('R01a', 'payload split: data fragment i carries the next min(remaining, payload size) input bytes (cursor discipline)',
                  'data fragment i must carry bytes [i*size,(i+1)*size) of the input, zero padded')
     c01.cursor_rule(P, r, 'prepare_fragments_for_encode', 'src')
